@@ -403,7 +403,31 @@ func (c *Ctx) checkPartition() {
 		}
 		// partitioned <=> active <= X <=> !(X < active), in any spelling
 		a := core.NormCond(res)
-		if a.Op != token.LSS || !a.Negated || !isLenOf(core.IsFieldLoad(activeF))(a.Y) {
+		// the number of active nodes read directly, or through an accessor that returns len(activeNodes)
+		isActiveCount := func(v ssa.Value) bool {
+			if isLenOf(core.IsFieldLoad(activeF))(v) {
+				return true
+			}
+			call, ok := core.Strip(v).(*ssa.Call)
+			if !ok {
+				return false
+			}
+			h := call.Call.StaticCallee()
+			if h == nil || !core.InModule(h) || len(h.Blocks) == 0 {
+				return false
+			}
+			all, k := true, 0
+			core.AllInstrs(h, func(in2 ssa.Instruction) {
+				if r2, ok := in2.(*ssa.Return); ok && len(r2.Results) == 1 && r2.Block().Comment != "recover" {
+					k++
+					if !isLenOf(core.IsFieldLoad(activeF))(r2.Results[0]) {
+						all = false
+					}
+				}
+			})
+			return all && k > 0
+		}
+		if a.Op != token.LSS || !a.Negated || !isActiveCount(a.Y) {
 			return
 		}
 		lhs := a.X
